@@ -170,6 +170,10 @@ def install_loggers(api, current, stubs=()):
                     spec._GHOST["log"].append(("log-error", repr(e)))
             if _c.proof == "table":
                 # an ASSUMED summary: the callee is replaced by the value the counterexample chose
+                if _c.native_effect is not None:
+                    ba = inspect.signature(_orig).bind(*a, **kw)
+                    ba.apply_defaults()
+                    call_spec(_c.native_effect, dict(ba.arguments))
                 for i, (label, val) in enumerate(pending):
                     if label == _c.label:
                         del pending[i]
